@@ -5,6 +5,8 @@ import (
 	"strings"
 	"sync"
 
+	"github.com/cloudspannerecosystem/memefish"
+
 	"github.com/cloudspannerecosystem/memefish/ast"
 )
 
@@ -165,8 +167,8 @@ func (v *manyVisitor) Visit(n ast.Node) ast.Visitor {
 	return v
 }
 func (v *manyVisitor) VisitMany(ns []ast.Node) ast.Visitor { return v }
-func (v *manyVisitor) Field(string) ast.Visitor             { return v }
-func (v *manyVisitor) Index(int) ast.Visitor                { return v }
+func (v *manyVisitor) Field(string) ast.Visitor            { return v }
+func (v *manyVisitor) Index(int) ast.Visitor               { return v }
 
 func propC17(o *propOpts) *propResult {
 	res := newResult("inputs: as C04; for every returned tree: the event list of ast.Walk with a recording visitor (Visit/VisitMany/Field/Index, the visitor identified by its Field/Index path) under three pruning rules vs the expectation derived by reflection over exported node-typed fields in declaration order; Inspect and Preorder visit exactly the reachable nodes in pre-order; Preorder stops with the consumer and yields everything otherwise; WalkMany / InspectMany / PreorderMany over the returned roots and over a two-element list visit the concatenation of the per-root pre-orders; non-trivial = tree with at least 5 nodes; distinct by (entry,input)")
@@ -320,6 +322,58 @@ func propC18(o *propOpts) *propResult {
 			res.fail("conc:"+it.e.name+":"+hx(it.s), it.s, it.e.name, "a concurrent call gives a different result than the call alone: "+firstDiff(first[i].dump+first[i].sql+first[i].errs, got[i].dump+got[i].sql+got[i].errs))
 		}
 	}
+	// order dependence through state that outlives a call (a pooled parser / lexer / file, a cached line table, a leftover look-ahead
+	// flag): every "leaver" call (an input that stops early or fails at a particular kind of token, through every entry point
+	// including SplitRawStatements and the Lexer) followed by every "sensitive" call (an input whose FIRST token lexes differently
+	// in another lexer state) must give the result the sensitive call gives after a neutral, successful call
+	type anyCall struct {
+		name    string
+		neutral string
+		run     func(s string) string
+	}
+	var calls []anyCall
+	for i := range entries {
+		e := &entries[i]
+		neutral := map[string]string{"ParseExpr": "1", "ParseType": "INT64", "ParseDDL": "DROP TABLE t", "ParseDDLs": "DROP TABLE t", "ParseDML": "DELETE FROM t WHERE TRUE", "ParseDMLs": "DELETE FROM t WHERE TRUE"}[e.name]
+		if neutral == "" {
+			neutral = "SELECT 1"
+		}
+		calls = append(calls, anyCall{e.name, neutral, func(s string) string { ob := observe(e, s); return ob.dump + "|" + ob.sql + "|" + ob.errs }})
+	}
+	calls = append(calls, anyCall{"SplitRawStatements", "SELECT 1", func(s string) string {
+		var out string
+		safely(func() {
+			ps, err := memefish.SplitRawStatements("f.sql", s)
+			out = fmt.Sprint(err)
+			for _, p := range ps {
+				out += fmt.Sprintf("|%d-%d:%s", p.Pos, p.End, p.Statement)
+			}
+		})
+		return out
+	}})
+	calls = append(calls, anyCall{"Lexer", "SELECT 1", specRun})
+	leavers := []string{"a b", "f(x) )", "1 ]", "@p 1", "a.", "a.'x", "SELECT t.'oops", "SELECT t.", "a . `", "x.\"abc", "(a).1a", "a[1].0x", "a\n\n\n\n\n\n\n\n\n\n\n\n\n\n\n\n\nb c", "1 +", "'abc", "/* x", "a.b.", "SELECT 1;", "SELECT 1; SELECT t."}
+	sensitive := []string{".5", "  .25e1 * 2", "1a", "0x", "0x; SELECT 1", "select", "SELECT 1", "r'\\d+;\\d+' ; SELECT 2", "1", "e1", "NULL", "INT64", "`x`", "DELETE FROM t WHERE TRUE", "DROP TABLE t", "\n\n\n\n\n\n\n\n\n\n\n\n\n\n\n\n\nb c"}
+	pairs := 0
+	for bi := range calls {
+		cb := &calls[bi]
+		for _, b := range sensitive {
+			cb.run(cb.neutral)
+			ref := cb.run(b)
+			for ai := range calls {
+				ca := &calls[ai]
+				for _, a := range leavers {
+					ca.run(a)
+					got := cb.run(b)
+					pairs++
+					if got != ref && !strings.Contains(got, "hung") && !strings.Contains(ref, "hung") {
+						res.fail("order:"+ca.name+":"+hx(a)+":"+cb.name+":"+hx(b), b, cb.name, fmt.Sprintf("%s(%q) gives a different result after %s(%q) than after a successful call: %s", cb.name, b, ca.name, a, firstDiff(ref, got)))
+					}
+				}
+			}
+		}
+	}
+	res.Hist["order_pairs"] = pairs
 	res.Hist["inputs"] = len(items)
 	res.Hist["goroutines"] = workers
 	return res
